@@ -11,7 +11,7 @@ Local Open Scope list_scope.
 
 (** * Every handler *)
 Theorem keys_cover_kx name h argv :
-  handler_of name = Some h -> lower (arg argv 0) = name -> is_flush name = false ->
+  handler_of name = Some h -> lower (arg argv 0) = name -> keyless_scan name = false ->
   kx_within (key_extract name "" argv) (h argv).
 Proof.
   rewrite handler_of_unfold. intros Hh Hn Hf.
@@ -19,28 +19,30 @@ Proof.
   destruct (hash_handler name) eqn:E2; [injection Hh as <-; by eapply kc_hash|].
   destruct (set_handler default_pick name) eqn:E3; [injection Hh as <-; by eapply kc_set|].
   destruct (zset_handler name) eqn:E4; [injection Hh as <-; by eapply kc_zset|].
-  destruct (generic_handler name) eqn:E5; [injection Hh as <-; by eapply kc_generic|].
-  by eapply kc_string.
+  destruct (generic_handler name) eqn:E5; [injection Hh as <-; eapply kc_generic; [done|by apply keyless_scan_flush]|].
+  destruct (string_handler name) eqn:E6; [injection Hh as <-; by eapply kc_string|].
+  destruct (CmdZRand.zrand_handler CmdZRand.default_zpick name) eqn:E7; [injection Hh as <-; by eapply kc_zrand|].
+  by eapply kc_keyspace.
 Qed.
 
 (** The key function succeeds: every key read is among the reported read or write keys, every key
     written (value, deadline, deletion) is among the reported write keys. *)
 Theorem keys_cover name h argv ch rd wr :
-  handler_of name = Some h -> lower (arg argv 0) = name -> is_flush name = false ->
+  handler_of name = Some h -> lower (arg argv 0) = name -> keyless_scan name = false ->
   key_extract name "" argv = KxOk ch rd wr ->
   within_l (rd ++ wr) wr (h argv).
 Proof. intros Hh Hn Hf Hk. pose proof (keys_cover_kx name h argv Hh Hn Hf) as H. by rewrite Hk in H. Qed.
 
 (** The key function fails (wrong arity): the handler touches no key. *)
 Theorem keys_cover_error name h argv :
-  handler_of name = Some h -> lower (arg argv 0) = name -> is_flush name = false ->
+  handler_of name = Some h -> lower (arg argv 0) = name -> keyless_scan name = false ->
   key_extract name "" argv = KxErr ->
   within nokey nokey (h argv).
 Proof. intros Hh Hn Hf Hk. pose proof (keys_cover_kx name h argv Hh Hn Hf) as H. by rewrite Hk in H. Qed.
 
 (** The key function of a modelled command is total: it answers with keys or with an error. *)
 Theorem keys_cover_total name h argv :
-  handler_of name = Some h -> lower (arg argv 0) = name -> is_flush name = false ->
+  handler_of name = Some h -> lower (arg argv 0) = name -> keyless_scan name = false ->
   (exists ch rd wr, key_extract name "" argv = KxOk ch rd wr) \/ key_extract name "" argv = KxErr.
 Proof.
   intros Hh Hn Hf. pose proof (keys_cover_kx name h argv Hh Hn Hf) as H.
@@ -53,7 +55,7 @@ Local Open Scope list_scope.
 
 (** Only reported write keys of the selected database change; nothing changes on an arity error. *)
 Theorem keys_cover_effect name h argv d s :
-  handler_of name = Some h -> lower (arg argv 0) = name -> is_flush name = false ->
+  handler_of name = Some h -> lower (arg argv 0) = name -> keyless_scan name = false ->
   st_maxmem s = 0 ->
   forall d' k, lentry (fst (run_seq d (h argv) s)) d' k <> lentry s d' k ->
     d' = d /\ exists ch rd wr, key_extract name "" argv = KxOk ch rd wr /\ k ∈ wr.
@@ -74,7 +76,7 @@ Qed.
     states that agree on the reported keys of the selected database give the same reply and agree on
     those keys afterwards.  Uses [functional_extensionality] (through [within_frame]). *)
 Theorem keys_cover_reply name h argv ch rd wr d s1 s2 :
-  handler_of name = Some h -> lower (arg argv 0) = name -> is_flush name = false ->
+  handler_of name = Some h -> lower (arg argv 0) = name -> keyless_scan name = false ->
   key_extract name "" argv = KxOk ch rd wr ->
   keys_agree (fun k => k ∈ rd ++ wr) d s1 s2 -> st_maxmem s1 = 0 ->
   snd (run_seq d (h argv) s1) = snd (run_seq d (h argv) s2) /\
@@ -96,6 +98,19 @@ Proof.
   - exists handle_flush, ["FLUSHALL"]. repeat split; try reflexivity. apply flushall_not_within.
 Qed.
 
+(** * Finding: RANDOMKEY reports no key and its reply depends on every key of the database.  For every
+    random source that proposes a key at all the handler passes that key to [KeysExist]; observably: the
+    reply tells whether a key the command does not name exists. *)
+Theorem randomkey_keys_cover_refuted :
+  forall k cands, exists argv,
+    lower (arg argv 0) = "randomkey" /\ key_extract "randomkey" "" argv = KxOk [] [] [] /\
+    ~ within_l ([] ++ []) [] (CmdKeyspace.handle_randomkey (k :: cands) argv).
+Proof.
+  intros k cands. exists ["RANDOMKEY"]. repeat split; try reflexivity.
+  unfold CmdKeyspace.handle_randomkey. cbn [length Nat.eqb negb]. intros H. inversion H as [|ks kk Hks| | | | | | |]; subst.
+  apply list.Forall_cons in Hks as [Hk _]. by apply elem_of_nil in Hk.
+Qed.
+
 (** ... observably: a key the command does not name is gone afterwards. *)
 Definition flush_witness_state : state := fst (set_values (init_state 0) 0 [("k"%string, VScal (SStr "v"))]).
 Theorem flush_effect_refuted :
@@ -103,6 +118,11 @@ Theorem flush_effect_refuted :
   lentry (fst (run_seq 0 (handle_flush ["flushdb"%string]) flush_witness_state)) 0 "k" = None /\
   lentry (fst (run_seq 1 (handle_flush ["flushall"%string]) flush_witness_state)) 0 "k" = None.
 Proof. vm_compute. split; [by eexists|done]. Qed.
+
+Theorem randomkey_effect_refuted :
+  snd (run_seq 0 (CmdKeyspace.handle_randomkey ["k"%string] ["randomkey"%string]) flush_witness_state) = RBulk "k" /\
+  snd (run_seq 0 (CmdKeyspace.handle_randomkey ["k"%string] ["randomkey"%string]) (init_state 0)) = RBulk "".
+Proof. vm_compute. done. Qed.
 
 (** * The gate *)
 Local Open Scope string_scope.
@@ -136,7 +156,7 @@ Section Gate.
       required) passes only keys matched by the user's read or write patterns to the reading
       primitives, and only keys matched by the user's write patterns to the writing primitives. *)
   Theorem gate_keys_cover a c argv p h :
-    lookup_cmd argv = LCmd p None -> handler_of (cr_name p) = Some h -> is_flush (cr_name p) = false ->
+    lookup_cmd argv = LCmd p None -> handler_of (cr_name p) = Some h -> keyless_scan (cr_name p) = false ->
     a_require a = true -> authorize glob_match a c p None argv = true ->
     exists r, a_conns a !! c = Some r /\ c_auth r = true /\
       within (may_read (deref a (c_user r))) (may_write (deref a (c_user r))) (h argv).
@@ -177,7 +197,7 @@ Section Gate.
       differs after the command is a key of the connection's database matched by a write pattern of
       the user, and the reply does not depend on any key the user may neither read nor write. *)
   Theorem gate_effect_permitted a c argv p h d s :
-    lookup_cmd argv = LCmd p None -> handler_of (cr_name p) = Some h -> is_flush (cr_name p) = false ->
+    lookup_cmd argv = LCmd p None -> handler_of (cr_name p) = Some h -> keyless_scan (cr_name p) = false ->
     a_require a = true -> authorize glob_match a c p None argv = true -> st_maxmem s = 0%Z ->
     exists r, a_conns a !! c = Some r /\ c_auth r = true /\
       (forall d' k, lentry (fst (run_seq d (h argv) s)) d' k <> lentry s d' k ->
